@@ -49,6 +49,8 @@ def matrix(tier):
         tus.append(("algorithm selector header, %s" % label,
                     {"name": "h_selecter_" + "_".join(d[10:].lower() for d in defs) if defs else "h_selecter_none",
                      "sources": ["h_selecter.cpp", "mock_starpu.cpp", "mock_gomp.cpp"], "flags": ["-fopenmp", inc, inc2] + defs}, "selecter"))
+    # the Hilbert ordering as a configuration: trees of heights 2..6, counting kernel (header consistency, every particle N-1)
+    tus.append(("Hilbert ordering (3-D), tree construction and sequential executor", {"name": "h_hilbert_fmm", "sources": ["h_hilbert_fmm.cpp"], "flags": []}, "selecter"))
     return tus
 
 
@@ -75,7 +77,10 @@ def run(rep, tier, seed, replay, proof_ok, proof_msg):
     for label, spec, cfg, path in compiled:
         if cfg == "selecter":
             rc, so, se = common.run_harness(path, "")
-            if rc != 0 or "bad=0" not in so:
+            if (rc != 0 or "bad=0" not in so) and spec["name"] == "h_hilbert_fmm":
+                rep.violation("C19:hilbert-fmm", "# %s (harness/h_hilbert_fmm.cpp, no input)\n# stdout: %s\n# stderr: %s\n" % (label, so.strip()[:300], se.strip()[:2000].replace("\n", "\n# ")), True,
+                              "configuration '%s': trees built with it are inconsistent or the counting kernel does not give N-1 (exit %d, %s)" % (label, rc, (so.strip() or se.strip().split("\n")[0])[:160]))
+            elif rc != 0 or "bad=0" not in so:
                 rep.violation("C19:selector:" + label, "# %s\n# stdout: %s\n# stderr: %s\n" % (label, so.strip()[:300], se.strip()[:2000].replace("\n", "\n# ")), True,
                               "configuration '%s': the selected executors do not deliver the exactly-once result (exit %d, %s)" % (label, rc, so.strip()[:120]))
     binaries = {cfg: path for _, _, cfg, path in compiled if cfg is not None and cfg != "selecter"}
@@ -131,4 +136,5 @@ def run(rep, tier, seed, replay, proof_ok, proof_msg):
     rep.cov["distinct_nontrivial"] = max(2, len(tus))
     rep.cov["rule"] = "one translation unit per configuration of the documented matrix; each is distinct and non-trivial (a separate template instantiation)"
     rep.cov["samples"] = [{"tu": t[0], "flags": t[1]["flags"], "compiled": t[0] in [c[0] for c in compiled]} for t in tus[:6]]
-    rep.assumptions += ["g++ 12 -std=c++17 is the compiler; Specx/StarPU runtimes are absent from the sandbox"]
+    rep.assumptions += ["g++ 12 -std=c++17 is the compiler; Specx/StarPU runtimes are absent from the sandbox",
+                        "Hilbert ordering: one TU builds trees and runs the counting kernel (self-consistency); its geometric defect is the known finding of C11"]
